@@ -1399,6 +1399,19 @@ pub fn sessions_c17() -> Vec<Session> {
             name: "quit-with-pending-input",
             acts: vec![Arrive(inp(b"ab")), Poll(Some(0)), Poll(Some(0)), Poll(Some(0))],
             allowed: vec![(Inject::Term, 1)], stall_selects: 0, probe: false, kitty: false },
+        // a termination signal and a window-size signal pending in one batch, in both orders and at every pair of points
+        Session {
+            name: "term-with-winch",
+            acts: vec![Write(5), Poll(Some(0)), Poll(Some(5)), Poll(Some(0)), Poll(Some(0))],
+            allowed: vec![(Inject::Term, 1), (Inject::Winch, 1)], stall_selects: 0, probe: false, kitty: false },
+        Session {
+            name: "winch-then-term-before-poll",
+            acts: vec![Arrive(Inject::Winch), Arrive(Inject::Term), Poll(Some(5)), Poll(Some(0)), Poll(Some(0))],
+            allowed: vec![(Inject::Wake, 1)], stall_selects: 0, probe: false, kitty: false },
+        Session {
+            name: "term-then-winch-before-poll",
+            acts: vec![Arrive(Inject::Term), Arrive(Inject::Winch), Poll(None), Poll(Some(0)), Poll(Some(0))],
+            allowed: vec![], stall_selects: 0, probe: false, kitty: false },
     ]
 }
 
